@@ -38,6 +38,9 @@ pub enum Param {
     /// of an existing POS, 1: empty list, 2: an existing POS plus a seventh component); bool = allow
     SimplePosShape(u8, bool),
     RegexPosShape(u8, bool),
+    /// a second unk.def line whose POS differs from the first line's (existing) POS in the sixth
+    /// component only and is absent from the dictionary; bool = userPOS allow
+    UnkTwinPos(bool),
 }
 
 pub struct RectSpace {
@@ -61,6 +64,7 @@ struct Cfg {
     unk_pos: Option<bool>,
     simple_shape: Option<(u8, bool)>,
     regex_shape: Option<(u8, bool)>,
+    unk_twin: Option<bool>,
 }
 
 fn shaped_pos(kind: u8) -> Vec<&'static str> {
@@ -79,7 +83,7 @@ const P_ABSENT: [&str; 6] = ["無い", "品詞", "*", "*", "*", "*"];
 
 impl RectSpace {
     fn cfg_of(&self, s: &[u16]) -> Cfg {
-        let mut c = Cfg { simple: (0, 0, 100), regex: (0, 0, 200), unk: (0, 0, 300), inhibit: (0, 0), simple_pos: None, regex_pos: None, unk_pos: None, simple_shape: None, regex_shape: None };
+        let mut c = Cfg { simple: (0, 0, 100), regex: (0, 0, 200), unk: (0, 0, 300), inhibit: (0, 0), simple_pos: None, regex_pos: None, unk_pos: None, simple_shape: None, regex_shape: None, unk_twin: None };
         for &i in s {
             let (p, v) = &self.devs[i as usize];
             match p {
@@ -99,6 +103,7 @@ impl RectSpace {
                 Param::UnkPosAbsent(a) => c.unk_pos = Some(*a),
                 Param::SimplePosShape(k, a) => c.simple_shape = Some((*k, *a)),
                 Param::RegexPosShape(k, a) => c.regex_shape = Some((*k, *a)),
+                Param::UnkTwinPos(a) => c.unk_twin = Some(*a),
             }
         }
         // a shape deviation replaces the provider's POS list altogether
@@ -107,6 +112,10 @@ impl RectSpace {
         }
         if c.regex_shape.is_some() {
             c.regex_pos = None;
+        }
+        // the twin line shares the plugin's userPOS setting with the first line
+        if c.unk_twin.is_some() {
+            c.unk_pos = None;
         }
         c
     }
@@ -140,6 +149,9 @@ impl RectSpace {
             if let Some((k, false)) = sh {
                 return Err(format!("{} part of speech {:?} is not in the dictionary and user-defined POS are not allowed", name, shaped_pos(k)));
             }
+        }
+        if c.unk_twin == Some(false) {
+            return Err("the part of speech of the second unk.def line is not in the dictionary and user-defined POS are not allowed".to_string());
         }
         let mut registered = false;
         for (name, p) in [("RegexOov", c.regex_pos), ("unk.def", c.unk_pos), ("SimpleOov", c.simple_pos)] {
@@ -186,12 +198,20 @@ impl RectSpace {
         if let Some(a) = ra {
             regex["userPOS"] = json!(a);
         }
-        let (up, ua) = pos_of_opt(c.unk_pos);
+        let (up, mut ua) = pos_of_opt(c.unk_pos);
+        if let Some(a) = c.unk_twin {
+            ua = Some(if a { "allow" } else { "forbid" });
+        }
         let mut mecab = json!({"class": "com.worksap.nlp.sudachi.MeCabOovPlugin", "charDef": "char.def", "unkDef": "unk_c20.def"});
         if let Some(a) = ua {
             mecab["userPOS"] = json!(a);
         }
-        let unk = format!("HIRAGANA,{},{},{},{}\n", c.unk.0, c.unk.1, c.unk.2, up.join(","));
+        let mut unk = format!("HIRAGANA,{},{},{},{}\n", c.unk.0, c.unk.1, c.unk.2, up.join(","));
+        if c.unk_twin.is_some() {
+            let mut twin: Vec<&str> = P_NOUN.to_vec();
+            twin[5] = "別";
+            unk.push_str(&format!("KATAKANA,0,0,400,{}\n", twin.join(",")));
+        }
         let plugins = json!({
             "oovProviderPlugin": [regex, mecab, simple],
             // the pair under test sits between two valid pairs (a check of the list's extremes only must not pass)
@@ -241,7 +261,7 @@ impl Space for RectSpace {
         std::fs::write(self.dir.join(&unk_name), &unk).expect("write unk.def");
         let mut plugins = plugins;
         plugins["oovProviderPlugin"][1]["unkDef"] = json!(unk_name);
-        let ctx = format!("[matrix {}x{}] simple={:?} regex={:?} unk.def={:?} inhibitPair={:?} pos(simple,regex,unk)={:?} pos-shape(simple,regex)={:?}", self.n, self.m, c.simple, c.regex, c.unk, c.inhibit, (c.simple_pos, c.regex_pos, c.unk_pos), (c.simple_shape, c.regex_shape));
+        let ctx = format!("[matrix {}x{}] simple={:?} regex={:?} unk.def={:?} inhibitPair={:?} pos(simple,regex,unk)={:?} pos-shape(simple,regex)={:?} second-unk-line={:?}", self.n, self.m, c.simple, c.regex, c.unk, c.inhibit, (c.simple_pos, c.regex_pos, c.unk_pos), (c.simple_shape, c.regex_shape), c.unk_twin);
         let r = catch(|| load(&self.dir, &plugins, self.system.clone(), vec![]));
         match r {
             Err(p) => o.fail(Failure::panic(&format!("{} loading", ctx), &p)),
@@ -334,6 +354,7 @@ fn rect_space(n: usize, m: usize, max_devs: usize) -> RectSpace {
         devs.push((Param::SimplePosAbsent(a), 0));
         devs.push((Param::RegexPosAbsent(a), 0));
         devs.push((Param::UnkPosAbsent(a), 0));
+        devs.push((Param::UnkTwinPos(a), 0));
         for k in 0..3u8 {
             devs.push((Param::SimplePosShape(k, a), 0));
             devs.push((Param::RegexPosShape(k, a), 0));
